@@ -315,6 +315,17 @@ func (x *Exec) execStmt(s ast.Stmt, st *State, env *Env) Flow {
 			dead.pc = "false"
 			return Flow{normal: dead}
 		}
+		if x.con != nil && x.con.Spawns {
+			// spawns mode: the started goroutine is verified separately against its own contract; here only the actual
+			// arguments are evaluated (bounds obligations, arg(i) points) and the statement is otherwise skipped
+			if _, lit := n.Call.Fun.(*ast.FuncLit); !lit {
+				for _, a := range n.Call.Args {
+					x.eval(a, st, env)
+				}
+			}
+			x.c.notes[x.fi.Key+": `go` statements are skipped; what the started goroutines do is covered by their own contracts, their scheduling is not modelled"] = true
+			return Flow{normal: st}
+		}
 		panic(unsupported(fmt.Sprintf("statement %T (concurrency / defer)", s)))
 	case *ast.SelectStmt, *ast.DeferStmt:
 		panic(unsupported(fmt.Sprintf("statement %T (concurrency / defer)", s)))
@@ -749,7 +760,11 @@ func (x *Exec) havocLoop(body ast.Node, extra []types.Object, st *State, env *En
 		allHandles, handles := x.ghostHandlesIn(body, st, env)
 		for _, k := range sortedGhostKeys(st.gh) {
 			v := st.gh[k]
-			if i := strings.Index(k, ":"); i >= 0 && !allHandles && !handles[k[i+1:]] {
+			if strings.HasPrefix(k, "fam") {
+				if !allHandles && len(handles) == 0 {
+					continue // no send anywhere in the loop body
+				}
+			} else if i := strings.Index(k, ":"); i >= 0 && !allHandles && !handles[k[i+1:]] {
 				continue
 			}
 			switch {
@@ -761,6 +776,18 @@ func (x *Exec) havocLoop(body ast.Node, extra []types.Object, st *State, env *En
 				// prefix preserved
 				x.c.assumes = append(x.c.assumes, fmt.Sprintf("(forall ((j Int)) (! (=> (and (<= 0 j) (< j %s)) (= (select %s j) (select %s j))) :pattern ((select %s j))))", v.Seq.N, s.Arr, v.Seq.Arr, s.Arr))
 				h.gh[k] = Val{Seq: &s, Ty: v.Ty}
+			case strings.HasPrefix(k, "famarr:"):
+				// per-handle logs only grow: every handle keeps its prefix
+				es := k[7:]
+				na := x.c.freshConst("famarr", "(Array Int (Array Int "+es+"))")
+				nn := x.c.freshConst("famn", "(Array Int Int)")
+				on := st.gh["famn:"+es].T
+				x.c.assumes = append(x.c.assumes, fmt.Sprintf("(forall ((h Int)) (! (>= (select %s h) (select %s h)) :pattern ((select %s h))))", nn, on, nn))
+				x.c.assumes = append(x.c.assumes, fmt.Sprintf("(forall ((h Int) (j Int)) (! (=> (and (<= 0 j) (< j (select %s h))) (= (select (select %s h) j) (select (select %s h) j))) :pattern ((select (select %s h) j))))", on, na, v.T, na))
+				h.gh[k] = Val{T: na}
+				h.gh["famn:"+es] = Val{T: nn}
+			case strings.HasPrefix(k, "famn:"):
+				// handled with famarr
 			case strings.HasPrefix(k, "failed:"):
 				nf := x.c.freshConst("failed", "Bool")
 				x.c.assume("true", implies(v.T, nf))
@@ -1473,6 +1500,10 @@ func (x *Exec) ghostHandlesIn(body ast.Node, st *State, env *Env) (all bool, han
 		switch n := nd.(type) {
 		case *ast.FuncLit:
 			return false
+		case *ast.GoStmt:
+			if x.con != nil && x.con.Spawns {
+				return false // skipped in spawns mode
+			}
 		case *ast.SendStmt:
 			if t, ok := termOf(n.Chan); ok {
 				handles[t] = true
